@@ -139,6 +139,9 @@ def units_for(suite, props=None, keys=None, src=None):
     for key, fs in spec.funcs.items():
         if keys and key not in keys:
             continue
+        if fs.d.get('wip') and not keys:
+            # a contract still being worked on: neither verified nor assumed by any claimed check
+            continue
         if props:
             tags = set(fs.props)
             for c in fs.ensures:
